@@ -59,4 +59,86 @@ theorem splitOn_ne_nil (c : Nat) (s : List Nat) : splitOn c s ≠ [] := by
 /-- `sep.join(parts)` with the empty separator -/
 def joinEmpty (parts : List (List Nat)) : List Nat := parts.flatten
 
+/-! ## `unquote`: the regex split into ASCII runs, pairs of a `range(1, len(L), 2)` loop, the UTF-8 decoder -/
+
+/-- `re.compile('([\x00-\x7f]+)').split(s)`: `[n0, a1, n1, …, ak, nk]` with `a_i` the maximal runs of ASCII characters
+    and `n_i` what lies between them (`n0` / `nk` possibly empty).  Always of odd length (`asciiSplit_length`). -/
+def asciiSplit : Str → List Str
+  | [] => [[]]
+  | c :: r =>
+    match asciiSplit r with
+    | n0 :: tl =>
+      if c < 128 then
+        match n0, tl with
+        | [], a1 :: t => [] :: (c :: a1) :: t
+        | _, _ => [] :: [c] :: n0 :: tl
+      else (c :: n0) :: tl
+    | [] => [[c]]      -- unreachable
+
+/-- `[(L[i], L[i + 1]) for i in range(1, len(L), 2)]` when `len(L)` is odd (an even length would end in IndexError) -/
+def pairsFrom1 : List Str → List (Str × Str)
+  | _ :: a :: n :: t => (a, n) :: pairsFrom1 (n :: t)
+  | _ => []
+
+theorem asciiSplit_length (s : Str) : (asciiSplit s).length % 2 = 1 := by
+  induction s with
+  | nil => rfl
+  | cons c r ih =>
+    unfold asciiSplit
+    split
+    · rename_i n0 tl heq
+      rw [heq] at ih
+      split
+      · split
+        · simp only [List.length_cons] at ih ⊢; omega
+        · simp only [List.length_cons] at ih ⊢; omega
+      · simpa using ih
+    · rfl
+
+/-- one step of CPython's UTF-8 decoder with `errors='replace'` on `b0 :: rest`: (code point produced, number of
+    bytes of `rest` consumed with it).  U+FFFD replaces an invalid start byte / a lead byte whose next byte cannot
+    continue it (alone), and a valid proper prefix of a longer sequence (as a whole). -/
+def isCont (b : Nat) : Bool := 0x80 ≤ b && b < 0xC0
+
+def decodeStep (b0 : Nat) (rest : Bytes) : Nat × Nat :=
+  if b0 < 0x80 then (b0, 0)
+  else if b0 < 0xC2 then (0xFFFD, 0)
+  else if b0 < 0xE0 then
+    match rest with
+    | [] => (0xFFFD, 0)
+    | b1 :: _ => if isCont b1 then ((b0 - 0xC0) * 64 + (b1 - 0x80), 1) else (0xFFFD, 0)
+  else if b0 < 0xF0 then
+    match rest with
+    | [] => (0xFFFD, 0)
+    | b1 :: r1 =>
+      if !isCont b1 || (if b1 < 0xA0 then b0 == 0xE0 else b0 == 0xED) then (0xFFFD, 0)
+      else match r1 with
+        | [] => (0xFFFD, 1)
+        | b2 :: _ =>
+          if isCont b2 then ((b0 - 0xE0) * 4096 + (b1 - 0x80) * 64 + (b2 - 0x80), 2) else (0xFFFD, 1)
+  else if b0 < 0xF5 then
+    match rest with
+    | [] => (0xFFFD, 0)
+    | b1 :: r1 =>
+      if !isCont b1 || (if b1 < 0x90 then b0 == 0xF0 else b0 == 0xF4) then (0xFFFD, 0)
+      else match r1 with
+        | [] => (0xFFFD, 1)
+        | b2 :: r2 =>
+          if !isCont b2 then (0xFFFD, 1)
+          else match r2 with
+            | [] => (0xFFFD, 2)
+            | b3 :: _ =>
+              if isCont b3 then
+                ((b0 - 0xF0) * 262144 + (b1 - 0x80) * 4096 + (b2 - 0x80) * 64 + (b3 - 0x80), 3)
+              else (0xFFFD, 2)
+  else (0xFFFD, 0)
+
+def decodeGo : Nat → Bytes → Str
+  | 0, _ => []
+  | _ + 1, [] => []
+  | f + 1, x :: rest => (decodeStep x rest).1 :: decodeGo f (rest.drop (decodeStep x rest).2)
+
+/-- `bs.decode('utf-8', 'replace')` -/
+def decodeUtf8Replace (bs : Bytes) : Str := decodeGo bs.length bs
+
 end PyRtC06
